@@ -130,6 +130,9 @@ pub enum Ev {
     /// keep the Context and call `run()` again - what a caller does who races `ctx.run()` against
     /// something else in a `select!` loop. Nothing observable may change.
     ReenterRun,
+    /// `n` acknowledged QoS 1 publishes that are not part of the history proper: moves the packet
+    /// identifier counter on (a whole lap with n = 65 534)
+    AdvanceIdentifiers { n: u32 },
 }
 
 #[derive(Clone, Debug, PartialEq, Eq, Serialize, Deserialize, Default)]
@@ -1377,6 +1380,22 @@ impl<'a> Sim<'a> {
                 self.on_completions();
                 self.check_quiescent();
                 return;
+            }
+            Ev::AdvanceIdentifiers { n } => {
+                if self.terminated.is_some() || self.ctx_dropped || !self.w.ctx_running() {
+                    self.stats.events_skipped += 1;
+                    return;
+                }
+                self.settle();
+                self.on_completions();
+                self.tr.update(&mut self.w);
+                let budget = self.w.poll_budget;
+                self.w.poll_budget = budget.max(400_000_000);
+                if !self.w.advance_identifiers(*n) {
+                    self.fail("C05/not-completed/pub1", format!("{n} acknowledged QoS 1 publishes in the middle of the history did not go through (run {:?}, panics {:?})", self.w.run_result, self.w.panics));
+                }
+                self.tr.skip_existing(&mut self.w);
+                self.mark_ctx_polled();
             }
             Ev::ReenterRun => {
                 if self.terminated.is_some() || self.ctx_dropped || !self.w.ctx_running() {
